@@ -371,12 +371,87 @@ def c_write_fault(r, c):
     return r
 
 
-CORRUPT = {"rt_slice": c_rt_slice, "write_fault": c_write_fault, "read_long": c_read_long, "write_long": c_write_long, "rt_long": c_rt_long, "doc_long": c_doc_long, "cl_long": c_cl_long,
+_turn = {}
+
+
+def turn(ev, n):
+    """corruptors with several variants take them in turn (0 .. n-1) per event kind"""
+    _turn[ev] = _turn.get(ev, -1) + 1
+    return _turn[ev] % n
+
+
+def c_cmp_text(r, c):
+    if c not in ("strict", "equal"):
+        return None
+    if turn("cmp_text", 2) == 0:
+        r["sign"] = -1 if r["sign"] >= 0 else 1
+    else:
+        r["sign_reused"] = -1 if r["sign_reused"] >= 0 else 1
+    return r
+
+
+def c_enc_structs(r, c):
+    w = r["w"]
+    if not w:
+        return None
+    r["w"] = w[:-1] + [120, 10] if w[-1] == 10 else w + [120]      # the last line grows by an "x"
+    return r
+
+
+def c_cs2(r, c):
+    # the later observations of one input: All(), the Decoder's signer, what reached the caller after a source fault
+    t = turn("cs", 3)
+    if t == 0 or "all" not in r:
+        return c_cs(r, c)
+    if t == 1 and c in ("positive", "must-fail", "source-fails-midway", "signed-text-malformed"):
+        r["all"]["ok"] = not r["all"]["ok"]
+        return r
+    if c == "positive":
+        r["slice"]["signer"] = "k2" if r["slice"]["signer"] != "k2" else "k1"
+        return r
+    if c == "source-fails-midway" and r["keyring"]:
+        r["foreign_in_next"] = True
+        return r
+    return c_cs(r, c)
+
+
+def c_cl2(r, c):
+    if turn("cl", 2) == 0 or not r.get("faults") or len(r["in"]["entries"]) < 1:
+        return c_cl(r, c)
+    # a source that failed right at the start is reported as a clean, empty changelog
+    r["faults"][0] = {"ok": True, "n": 0, "panic": False}
+    return r
+
+
+def c_debraw2(r, c):
+    if turn("debraw", 2) == 0 or "overlap" not in r:
+        return c_debraw(r, c)
+    r["overlap"]["tar2"] = []
+    if not r["tar_first"]:
+        return c_debraw(r, c)
+    return r
+
+
+def c_up2(r, c):
+    if c == "fault-destfile":
+        if turn("up-destfile", 2) == 0:
+            r["dst_self"] = "partial"
+        else:
+            r["err"] = False
+        return r
+    return c_up(r, c)
+
+
+def c_ar2(r, c):
+    return c_ar(r, c)
+
+
+CORRUPT = {"cmp_text": c_cmp_text, "enc_structs": c_enc_structs, "rt_slice": c_rt_slice, "write_fault": c_write_fault, "read_long": c_read_long, "write_long": c_write_long, "rt_long": c_rt_long, "doc_long": c_doc_long, "cl_long": c_cl_long,
            "hasher_life": c_hasher_life, "upseq": c_upseq, "rt2": c_rt2, "cs_ops": c_cs_ops, "deb_ops": c_deb_ops, "cmp": c_cmp, "row": c_row, "triple": c_triple, "sort": c_sort, "parse": c_parse, "dep": c_dep, "dep_rt": c_dep_rt,
            "arch_rt": c_arch_rt, "is": c_is, "setmatch": c_setmatch, "select": c_select, "sat": c_sat, "read": c_read,
-           "write": c_write, "rw": c_rw, "rt": c_rt, "passthru": c_passthru, "doc": c_doc, "cs": c_cs, "hw": c_hw, "hr": c_hw,
-           "verifier": c_verifier, "ar": c_ar, "arbig": c_arbig, "arraw": c_arraw, "debraw": c_debraw, "deb": c_deb, "cl": c_cl,
-           "clraw": c_clraw, "call": c_call, "order": c_order, "up": c_up}
+           "write": c_write, "rw": c_rw, "rt": c_rt, "passthru": c_passthru, "doc": c_doc, "cs": c_cs2, "hw": c_hw, "hr": c_hw,
+           "verifier": c_verifier, "ar": c_ar, "arbig": c_arbig, "arraw": c_arraw, "debraw": c_debraw2, "deb": c_deb, "cl": c_cl2,
+           "clraw": c_clraw, "call": c_call, "order": c_order, "up": c_up2}
 
 PER_EV = 12   # corrupted lines per event kind and property
 
